@@ -142,7 +142,7 @@ func ruleNoReflectSet(p *Prog, r *Report, rule string) {
 
 // allowed nondeterminism sources (documented constructs), by function
 var nondetAllowed = map[string]string{
-	"(*tagNowNode).Execute|time.Now":        "`now` tag is documented to print the clock",
+	"(*tagNowNode).Execute|time.Now":         "`now` tag is documented to print the clock",
 	"(*tagLoremNode).Execute|math/rand.Intn": "`lorem … random` is documented as random",
 	"filterRandom|math/rand.Intn":            "`random` filter is documented as random",
 }
@@ -169,7 +169,25 @@ func ruleC04Nondet(p *Prog, a *Anchors, r *Report) {
 					name := p.extName(callee)
 					if (path == "time" && (callee.Name() == "Now" || callee.Name() == "Since" || callee.Name() == "Until")) || path == "math/rand" || path == "math/rand/v2" || path == "crypto/rand" {
 						key := fname + "|" + name
-						if why, ok := nondetAllowed[key]; ok {
+						why, ok := nondetAllowed[key]
+						if !ok {
+							// a helper only ever called from an allowed function shares its exemption
+							if p.staticOnly(f, nil) {
+								all := true
+								for _, e := range p.CG.Nodes[f].In {
+									if w, okc := nondetAllowed[p.FuncName(topLevel(e.Site.Parent()))+"|"+name]; okc {
+										why = w
+									} else {
+										all = false
+									}
+								}
+								if all && why != "" {
+									ok = true
+									key = p.FuncName(topLevel(p.CG.Nodes[f].In[0].Site.Parent())) + "|" + name + " (via helper)"
+								}
+							}
+						}
+						if ok {
 							r.Assume(key, p.InstrPos(in), "documented exclusion: %s", why)
 						} else {
 							r.Bad(key, p.InstrPos(in), "execution-reachable call of %s makes two executions with equal contexts differ", name)
